@@ -114,6 +114,16 @@ func c08Shapes(tier string) Harness {
 		d := dists[c.Free("distribution", len(dists))]
 		m := genStaticFeedN(c, false, baseCounts, nil, d)
 		sameZone(m)
+		// shape ids whose order by id differs from their order of appearance and whose lengths differ
+		rename := map[string]string{"SH1": "b", "SH2": "a10", "SH3": "a9"}
+		for _, f := range []string{"shapes.txt", "trips.txt"} {
+			t := m.t(f)
+			for r := range t.Rows {
+				if v, _ := t.get(r, "shape_id"); rename[v] != "" {
+					t.set(r, "shape_id", rename[v])
+				}
+			}
+		}
 		perm := c.Perm("shapes.row", len(d))
 		permuteRows(m.t("shapes.txt"), perm)
 		identity := true
